@@ -1,5 +1,6 @@
 """C01 - reads that follow an annotated isoform are assigned to compatible isoforms only."""
-from collections import defaultdict
+import os
+from collections import Counter, defaultdict
 
 from hypothesis import strategies as st
 
@@ -376,7 +377,74 @@ def evaluate_twins(case, ctx):
         res.cleanup()
 
 
+@st.composite
+def file_scenarios(draw):
+    """One experiment given as two BAM files (two samples): every read is assigned as it is when its file is given
+    alone.  Read names are unique within a file; across the files they are distinct or - per-sample sequential names
+    such as transcript/1 - coincide."""
+    sc = draw(scenarios())
+    src = S.DrawSrc(draw)
+    sc["nfiles"] = 2
+    policy = src.choice(["distinct", "distinct", "colliding"])
+    a, b = [], []
+    for i, r in enumerate(sc["reads"]):
+        (a if src.bool(0.5) else b).append(r)
+    if not a or not b:
+        a, b = sc["reads"][::2], sc["reads"][1::2]
+    for i, r in enumerate(a):
+        r["file"] = 0
+    for i, r in enumerate(b):
+        r["file"] = 1
+    if policy == "colliding":
+        for i, r in enumerate(a):
+            r["n"] = "transcript/%d" % (i + 1)
+        for i, r in enumerate(b):
+            r["n"] = "transcript/%d" % (i + 1)
+    sc["name_policy"] = policy
+    sc.pop("truth", None)
+    return sc
+
+
+def evaluate_files(case, ctx):
+    sc = case
+    res = pipeline.run_case(sc, ctx)
+    try:
+        tsvp = res.path("read_assignments.tsv")
+        if res.code != 0 or not tsvp:
+            ctx.note("crash:" + res.crash_signature())
+            return
+        joint = Counter(parse.data_lines(tsvp))
+        separate = Counter()
+        for fi in (0, 1):
+            sub = dict(sc)
+            sub["reads"] = [dict(r, file=0) for r in sc["reads"] if r.get("file", 0) == fi]
+            sub["nfiles"] = 1
+            if not sub["reads"]:
+                continue
+            r1 = pipeline.run_case(sub, ctx, d=os.path.join(res.dir, "only%d" % fi))
+            p1 = r1.path("read_assignments.tsv")
+            if r1.code != 0 or not p1:
+                ctx.note("crash_single_file:" + r1.crash_signature())
+                return
+            separate.update(parse.data_lines(p1))
+        ctx.cls("files:" + sc["name_policy"])
+        shared = set(r["n"] for r in sc["reads"] if r.get("file", 0) == 0) & \
+            set(r["n"] for r in sc["reads"] if r.get("file", 0) == 1)
+        if len(joint) > 3:
+            ctx.mark_nontrivial(case_hash(case))
+        if joint != separate:
+            diff = list((joint - separate).keys())[:2] + list((separate - joint).keys())[:2]
+            names = set(l.split("\t")[0] for l in list((joint - separate).keys()) + list((separate - joint).keys()))
+            sig = "C01:assignment-depends-on-the-other-file-of-the-experiment"
+            if names and names <= shared:
+                sig += ":same-read-name-in-both-files"
+            ctx.violation(sig, {"rows": [l[:200] for l in diff], "policy": sc["name_policy"]}, case)
+    finally:
+        res.cleanup()
+
+
 def stages(tier):
     q = tier == "quick"
     return [Stage("assign", "hyp", evaluate, n=384 if q else 8000, strategy=scenarios),
-            Stage("twins", "hyp", evaluate_twins, n=192 if q else 3000, strategy=twin_scenarios)]
+            Stage("twins", "hyp", evaluate_twins, n=192 if q else 3000, strategy=twin_scenarios),
+            Stage("files", "hyp", evaluate_files, n=64 if q else 1000, strategy=file_scenarios)]
